@@ -210,14 +210,14 @@ Lemma counters_grow : forall s o, nobj s <= nobj (exec s o) /\ nwire s <= nwire 
 Proof.
   intros s o. unfold exec.
   assert (AP : forall kd o0 n w, nobj s <= nobj (fst (add_port s kd o0 n w)) /\ nwire s <= nwire (fst (add_port s kd o0 n w))).
-  { intros. unfold add_port. destruct (negb _); [lia|]. destruct (_ && _ && _); cbn; lia. }
+  { intros. unfold add_port. destruct (negb _); [cbn; lia|]. destruct (_ && _ && _); cbn; lia. }
   assert (MV : forall w np nn, nobj s <= nobj (fst (move s w np nn)) /\ nwire s <= nwire (fst (move s w np nn))).
-  { intros. unfold move. destruct (negb _); [lia|]. destruct (negb _); [lia|].
-    destruct (negb _); [lia|]. cbn. destruct (tmem _ _); cbn; lia. }
+  { intros. unfold move. destruct (negb _); [cbn; lia|]. destruct (negb _); [cbn; lia|].
+    destruct (negb _); [cbn; lia|]. cbn. destruct (tmem _ _); cbn; lia. }
   destruct o as [[p0|] n0 prim|p0 n0 width|o n0 w|o n0 w|o n0 w|w n0|w p0|w p0 n0]; cbn [step]; auto.
-  - unfold new_logic. destruct (negb _); [lia|]. destruct (tmem _ _); cbn; lia.
+  - unfold new_logic. destruct (negb _); [cbn; lia|]. destruct (tmem _ _); cbn; lia.
   - cbn. lia.
-  - unfold new_wire. destruct (negb _); [lia|]. destruct (tmem _ _); cbn; lia.
+  - unfold new_wire. destruct (negb _); [cbn; lia|]. destruct (tmem _ _); cbn; lia.
 Qed.
 
 Lemma driver_permanent : forall ops s w q,
